@@ -15,8 +15,11 @@ use std::fmt::Debug;
 /// suites reachable from the fuzz target: (key, tape length in u32 words offered to libFuzzer, executions per worker)
 pub const SUITES: &[(&str, usize, u64)] = &[
     ("C01/solved", 1500, 20000),
+    ("C01/solved-after-update", 1800, 10000),
     ("C02/infeasible", 1500, 20000),
+    ("C02/infeasible-after-update", 1800, 10000),
     ("C03/report", 1500, 20000),
+    ("C03/report-after-update", 1800, 10000),
     ("C04/robust", 600, 150000),
     ("C05/equivalent", 2500, 3000),
     ("C07/trajectory", 1500, 8000),
@@ -75,6 +78,9 @@ pub fn run_tape(key: &str, tape: &[u32], run: bool) -> (Value, CheckResult) {
     let small = GenCfg::small();
     match key {
         "C01/solved" => go(tape, &|t| c01_04::gen_c01(t, &small), &c01_04::check_c01, run),
+        "C01/solved-after-update" => go(tape, &|t| c01_04::gen_c01_resolve(t, &small), &c01_04::check_c01_resolve, run),
+        "C02/infeasible-after-update" => go(tape, &|t| c01_04::gen_c02_resolve(t, &small), &c01_04::check_c02_resolve, run),
+        "C03/report-after-update" => go(tape, &|t| c01_04::gen_c03_resolve(t, &small), &c01_04::check_c03_resolve, run),
         "C02/infeasible" => go(tape, &|t| c01_04::gen_c02(t, &small), &c01_04::check_c02, run),
         "C03/report" => go(tape, &|t| c01_04::gen_c03(t, &small), &c01_04::check_c03, run),
         "C04/robust" => go(tape, &c01_04::gen_c04, &c01_04::check_c04, run),
